@@ -279,10 +279,19 @@ def run(tier, seed, replay=None):
             # is an item of a reorderable run (use / extern crate) itself selected?
             runsel = any(it in "UWVX" and any(a <= hi and lo <= b for (a, b) in g["sel"])
                          for (it, lo, hi) in job[4])
-            # does a selected range touch the line directly before (or after) an indented item I?
-            # (the recorded defect: such a range drags the item's indentation along)
-            adj = any(it == "I" and any(a <= lo - 1 <= b or a <= hi + 1 <= b for (a, b) in g["sel"])
-                      for (it, lo, hi) in job[4])
+            # does a selected range touch the run of blank lines directly before (or after) an
+            # indented item I?  (the recorded defect: the gap and the item are judged together,
+            # such a range drags the item's indentation along)
+            sp = job[4]
+            adj = False
+            for k, (it, lo, hi) in enumerate(sp):
+                if it != "I":
+                    continue
+                before = (sp[k - 1][2] + 1 if k else 1, lo - 1)
+                after = (hi + 1, sp[k + 1][1] - 1 if k + 1 < len(sp) else hi + 1)
+                for (g0, g1) in (before, after):
+                    if g0 <= g1 and any(a <= g1 and g0 <= b for (a, b) in g["sel"]):
+                        adj = True
             adjs = f"adjI={adj}:" if any(it == "I" for (it, _, _) in job[4]) else ""
             v.violation(f"gate:{','.join(bad)}:{adjs}runsel={runsel}:sel={g['sel']}:seq={[s[0] for s in job[4]]}:"
                         f"mode={job[6]}:{core.fnv(job[3].encode()) % 1000}:{'-'.join(x for x in job[8] if not x.startswith('--')) if job[8] else ''}",
